@@ -84,6 +84,11 @@ def gen_grammars(prop, tier, n, profile):
                 h = gg.add_bag_list(g, rnd)
                 if h is not None and gg.classify(ref_lr1.build(h)) in ('lr1', 'sr'): g = h
             if rnd.random() < 0.12: g = gg.long_names(g, rnd)
+            if rnd.random() < 0.2:
+                # some functors return a non-const lvalue reference to a table entry of theirs: the left-side value has to be a copy of it
+                g = gg.clone(g)
+                for i, r in enumerate(g.rules):
+                    if r.ftor == 'f' and g.vtypes[r.lhs] in ('V', 'W') and rnd.random() < 0.3: g.rules[i] = gg.Rule(r.lhs, r.rhs, r.prec, 'lr')
             add(g)
     elif profile == 'values':     # C14: decorated + error rules + move-only instantiations
         for g in gg.err_core(): add(gg.decorate(g, rnd, strings=0))
@@ -253,6 +258,17 @@ def nonprintable_terms(g, rnd):
     g.note += '+nonprintable'
     return g
 
+def backtrack_terms(g, rnd):
+    """one char term a becomes the regex a(ba)? where b is another char term: after an 'a' the lexer reads a 'b' that it has to give back
+    unless another 'a' follows (longest match with back-tracking over a non-accepting state)"""
+    g = gg.clone(g)
+    cands = [j for j, t in enumerate(g.terms) if t.kind == 'c' and t.text.isalnum() and not t.typed]
+    if len(cands) >= 2 and not any(t.kind == 'r' for t in g.terms):
+        ja, jb = rnd.sample(cands, 2); a, b = g.terms[ja], g.terms[jb]
+        g.terms[ja] = gg.Term('r', '%s(%s%s)?' % (a.text, b.text, a.text), a.prec, a.assoc, None, a.typed)
+        g.note += '+backtrack'
+    return g
+
 def newline_term(g, rnd):
     """turn one char term into the newline character (a term only when newlines are not skipped)"""
     g = gg.clone(g)
@@ -303,7 +319,7 @@ def run_pipeline(prop, tier, grammars, cfg, per_tu=8, flavour='clang'):
         specs.append({'prop': prop, 'grammars': [g.to_json() for g in grammars[i:i + per_tu]], 'seed': common.seed() * 100003 + i,
                       'flavour': flavour, 'cfg': cfg,
                       # every fourth parser of the table-oriented checks is constructed at run time (new parser(...)) instead of constexpr
-                      'runtime_ctor': [k for k in range(per_tu) if k % 4 == 3] if prop in ('C01', 'C11', 'C05') else []})
+                      'runtime_ctor': [k for k in range(per_tu) if k % 4 == 3] if prop in ('C01', 'C11', 'C05', 'C13', 'C02') else []})
     return common.pmap(pipeline.worker, specs)
 
 REF_ASSUME = ['reference canonical LR(1) construction, driver and lexer model (lib/vf/ref_lr1.py, lib/vf/model.py); the driver is cross-checked against an Earley recogniser by tools/setup.py',
@@ -342,6 +358,7 @@ def c09(tier):
     gs = gen_grammars('C09', tier, 160 if q else 2000, 'plain') + gen_grammars('C09', tier, 96 if q else 1000, 'decorated')
     rnd = random.Random(common.seed() * 9001 + 9)
     gs = [nonprintable_terms(g, rnd) if (i % 4 == 1 and len(g.terms) <= 12 and not getattr(g, 'lexspec', None)) else g for i, g in enumerate(gs)]
+    gs = [backtrack_terms(g, rnd) if (i % 4 == 2 and len(g.terms) <= 12 and not getattr(g, 'lexspec', None)) else g for i, g in enumerate(gs)]
     merge(ck, run_pipeline('C09', tier, gs, cfg))
     ck.cov['rule'] = ('LR(1) grammars without error rules (char, string and typed terms); every input is parsed with a std::ostringstream; the complete stream text must equal '
                       'the single expected message (or nothing), with the offending term decided by the reference; the bounds-monitoring buffer records how far the '
